@@ -35,4 +35,6 @@ check("C18", "Comparisons, ordinal and sorted() on pairs with many equal ordinal
 check("C19", "The same call on all five classes (TLC verifies the calls correspond): identical predictions, acceptance and exception class, "
       "BT part = BT full on two teams, identical operation tables/signatures and hashes.", TV + GR)
 check("C20", "Constructors, deepcopy and twin leagues (live objects vs players rebuilt from stored (mu, sigma) before every game) judged by Rel.tla; bit-identical results.", TV + GR)
-NOT_YET["C17"] = "kernel sweep against Kernels.tla not built yet in this round (planned: DESIGN 6/C17)"
+check("C17", "v, w, vt, wt and the CDF are called on a dense sweep of [-40, 40] x log-spaced t, random points, +-64 ulp around every branch "
+      "threshold (located by bisection on the implementation's observable branch switch) and huge |x|; TLC judges each recorded call "
+      "against the exact V, W, V~, W~, Phi of Kernels.tla at 40 digits with the errors the property states.", TV + HP)
